@@ -155,12 +155,28 @@ func genInboxF(r *rng, ty string, k int, focus bool) *scenario {
 	if focus && k%3 != 0 {
 		cfg.FedOther = nil
 	}
+	if focus { // callbacks the application supplied for other types leave this type's default alone
+		others := []string{"Reject", "Remove", "Accept", "Add", "Undo", "Like", "Follow", "Create", "Delete", "Update", "Block", "Announce"}
+		o1, o2 := others[k%len(others)], others[(k/2+5)%len(others)]
+		if o1 != ty {
+			cfg.FedOther = append(cfg.FedOther, o1)
+		}
+		if o2 != ty && o2 != o1 {
+			cfg.FedWrapped = append(cfg.FedWrapped, o2)
+		}
+	}
 	alice := actorID(local, "alice")
 	sender := pick(r, remoteActors[:3])
 	id := fmt.Sprintf("%s/activities/%s-%d", remote, ty, k)
 	act := jmap{"@context": asCtx, "type": ty, "id": id, "actor": iriOrEmbedded(r, sender)}
 	if r.chance(1, 4) {
 		act["actor"] = []interface{}{sender, iriOrEmbedded(r, pick(r, remoteActors[:3]))}
+	}
+	if focus && k%7 == 3 { // two actors that differ only in the query of their ids; the second one is blocked
+		act["actor"] = []interface{}{sender + "?author=1", jmap{"type": "Person", "id": sender + "?author=2"}}
+		if ty != "Undo" && ty != "Accept" && ty != "Reject" {
+			cfg.Blocked = []string{sender + "?author=2"}
+		}
 	}
 	note := func(i int) jmap {
 		return jmap{"type": "Note", "id": fmt.Sprintf("%s/notes/%d-%d", remote, k, i), "content": "hello", "attributedTo": sender}
@@ -169,10 +185,18 @@ func genInboxF(r *rng, ty string, k int, focus bool) *scenario {
 	switch ty {
 	case "Create":
 		var objs []interface{}
+		if focus && k%4 == 1 && nobj < 2 {
+			nobj = 2
+		}
 		for i := 0; i < nobj; i++ {
-			if r.chance(1, 3) {
+			if r.chance(1, 3) || (focus && k%4 == 1) {
 				iri := fmt.Sprintf("%s/notes/byiri-%d-%d", remote, k, i)
-				w.Remote[iri] = remoteDoc{Kind: "doc", Doc: jmap{"@context": asCtx, "type": "Note", "id": iri, "content": "fetched"}}
+				doc := jmap{"@context": asCtx, "type": "Note", "id": iri, "content": "fetched"}
+				if i == 0 { // the first fetched object has members the later ones lack
+					doc["summary"] = "only the first has a summary"
+					doc["attributedTo"] = sender
+				}
+				w.Remote[iri] = remoteDoc{Kind: "doc", Doc: doc}
 				objs = append(objs, iri)
 			} else {
 				objs = append(objs, note(i))
@@ -329,6 +353,13 @@ func genInboxF(r *rng, ty string, k int, focus bool) *scenario {
 		cfg.Filter = pick(r, []string{"all", "all", "first", "none"})
 		cfg.MaxForwarding = 1 + r.intn(4)
 	}
+	if focus && k%5 == 2 { // two owned collections addressed: forwarding loads and keeps both
+		act["to"] = []interface{}{local + "/cols/2", alice}
+		act["cc"] = local + "/cols/1"
+		act["inReplyTo"] = local + "/notes/1"
+		cfg.Filter = "all"
+		cfg.MaxForwarding = 2
+	}
 	if r.chance(1, 10) && !focus { // duplicate delivery: already in the inbox
 		w.Inboxes[inboxOf(alice)]["orderedItems"] = id
 	}
@@ -400,7 +431,7 @@ func genShape(r *rng, reps int) []*scenario {
 								body[p] = []interface{}{v, v}
 							}
 						case "string":
-							body[p] = "not an iri"
+							body[p] = []string{"not an iri", "//remote.example/activities/relative", "/activities/1", "?x=1", "#frag", "remote.example/a"}[len(out)%6]
 						case "noid":
 							body[p] = jmap{"type": "Note", "content": "no id"}
 						}
@@ -639,6 +670,36 @@ func genOutbox(r *rng, ty string, k int) *scenario {
 	return sc
 }
 
+// ---- the same actor value serving two requests: what it learnt from the first must not decide the second ---------------
+// (C07: every request is authenticated / authorized anew; C10: each gets its own outcome)
+func genAgain(r *rng, k int) *scenario {
+	w := baseWorld(r)
+	cfg := defaultCfg()
+	sender := pick(r, remoteActors[:3])
+	mk := func(i int) jmap {
+		return jmap{"@context": asCtx, "type": pick(r, []string{"Like", "Create", "Announce"}), "id": fmt.Sprintf("%s/activities/again-%d-%d", remote, k, i),
+			"actor": sender, "object": jmap{"type": "Note", "id": fmt.Sprintf("%s/notes/again-%d-%d", remote, k, i), "content": "x"}}
+	}
+	first := inboxScenario("again:first", w, cfg, mk(0))
+	second := inboxScenario("again:"+[]string{"blocked-now", "auth-denied-now", "auth-error-now", "same"}[k%4], w, cfg, mk(1))
+	switch k % 4 {
+	case 0:
+		second.Cfg.Blocked = []string{sender}
+	case 1:
+		second.Cfg.Auth = "denied"
+	case 2:
+		second.Cfg.Auth = "error"
+	}
+	if k%8 >= 4 { // the other way round: refused first, welcome afterwards
+		first.Cfg, second.Cfg = second.Cfg, first.Cfg
+	}
+	if k%3 == 2 {
+		second.Path = "/users/bob/inbox"
+	}
+	second.Pre = first
+	return second
+}
+
 // ---- hidden recipients (C03), stratified ----------------------------------------------------------------------
 // Both protocols on; bto / bcc on the activity only, on an embedded object only, on both, on the second object only; the hidden
 // recipients are addressed nowhere else, so whether they are resolved for delivery shows.
@@ -698,6 +759,21 @@ func genHidden(r *rng, k int) *scenario {
 		sc.Entry = "send"
 		sc.Send = body
 		sc.Body = nil
+		if k%10 == 9 { // a Federating-only actor
+			sc.Cfg.Social = false
+		}
+	}
+	if k%9 == 8 { // an inbound Follow carrying hidden recipients, answered automatically: the Accept / Reject embeds it
+		f := jmap{"@context": asCtx, "type": "Follow", "id": fmt.Sprintf("%s/activities/hidden-follow-%d", remote, k), "actor": hid1, "object": alice,
+			"bto": hid2, "bcc": actorID(remote, "erin")}
+		// (already recorded as seen: the automatic reply strips the embedded Follow in place, which is the very value InboxForwarding
+		// would record afterwards - see DESIGN.md, "observed, not claimed")
+		w.Store[f["id"].(string)] = deepCopy(f)
+		sc = inboxScenario("hidden:follow", w, cfg, f)
+		sc.Cfg.OnFollow = 1 + k%2
+		if k%18 == 17 {
+			sc.Cfg.Social = false
+		}
 	}
 	return sc
 }
@@ -743,6 +819,9 @@ func genGet(r *rng, kind string, k int) *scenario {
 			inner := jmap{"type": "Note", "id": local + "/notes/x", "content": "x", "bto": actorID(remote, "carol"), "bcc": []interface{}{actorID(remote, "dave"), actorID(remote, "erin")}}
 			mid := jmap{"type": "Create", "id": local + "/activities/mid", "actor": alice, "object": inner, "bcc": actorID(remote, "erin")}
 			w.Store[id] = jmap{"@context": asCtx, "type": "Announce", "id": id, "actor": alice, "object": []interface{}{mid, local + "/notes/1"}, "bto": actorID(remote, "carol"), "to": public}
+			if r.chance(1, 2) { // an IRI before the embedded values
+				w.Store[id]["object"] = []interface{}{local + "/notes/2", mid, jmap{"type": "Note", "id": local + "/notes/y", "bcc": actorID(remote, "dave")}}
+			}
 			sc.Path = "/activities/served"
 		}
 	}
@@ -781,7 +860,10 @@ func gateScenarios(r *rng, sample int) []*scenario {
 		func() (jmap, string) { return nil, "this is not json" },
 	}
 	for _, entry := range []string{"postinbox", "postoutbox", "getinbox", "getoutbox", "handler"} {
-		for _, proto := range []string{"social", "federating", "both"} {
+		for _, proto := range []string{"social", "federating", "both", "none"} {
+			if proto == "none" && !(entry == "postinbox" || entry == "postoutbox") {
+				continue // the GET entry points of a custom actor are the application's delegate
+			}
 			for _, auth := range []string{"ok", "denied", "error"} {
 				for _, block := range []string{"no", "yes", "error"} {
 					if entry != "postinbox" && block != "no" {
@@ -794,8 +876,8 @@ func gateScenarios(r *rng, sample int) []*scenario {
 									continue
 								}
 								cfg := defaultCfg()
-								cfg.Social = proto != "federating"
-								cfg.Federating = proto != "social"
+								cfg.Social = proto == "social" || proto == "both"
+								cfg.Federating = proto == "federating" || proto == "both"
 								cfg.Auth = auth
 								switch block {
 								case "yes":
@@ -1011,7 +1093,11 @@ func genDeliver(r *rng, k int) *scenario {
 			if r.chance(1, 3) {
 				id = pick(r, cols)
 			}
-			l = append(l, iriOrEmbedded(r, id))
+			ev := iriOrEmbedded(r, id)
+			if m, ok := ev.(jmap); ok && r.chance(1, 2) { // an embedded copy of the actor that claims an inbox of its own
+				m["inbox"] = id + "/inbox-claimed-by-the-embedded-copy"
+			}
+			l = append(l, ev)
 			if r.chance(1, 5) { // the same id twice in a row (also Public twice)
 				l = append(l, id)
 			}
